@@ -51,15 +51,6 @@ func frameChecks(p *load.Prog, a *effects.Analysis, pkg *ssa.Package, r *report.
 		}
 		fname := strings.TrimPrefix(f.String(), pkg.Pkg.Path()+".")
 		fname = strings.ReplaceAll(fname, pkg.Pkg.Path()+".", "")
-		var unm []string
-		for k := range sum.Unmodelled {
-			unm = append(unm, k)
-		}
-		sort.Strings(unm)
-		for _, k := range unm {
-			w := sum.Unmodelled[k]
-			r.Undecided(o.prop+".unmodelled", fname+" reaches "+k, p.Pos(w.Leaf().Pos), "callee has no effect model and takes pointer-like operands: "+w.Chain(p))
-		}
 		recvIdx := -1
 		if hasRecv(f) {
 			recvIdx = 0
